@@ -59,6 +59,18 @@ PROPS = {
         "exhaustive_note": "sequences of length <= 2 over the operation alphabet are enumerated exhaustively (bounded-exhaustive)",
         "assumptions": COMMON_ASSUME + ["tables below 2^62 bytes; offsets are usize (< 2^64)"],
     },
+    "C14": {
+        "rule": "cases = the objects produced by the table generators (C01 histories, every table kind) and the AML generators "
+                "(C06 trees, C10 descriptors/templates); each case is executed 7 times against the crate: twice into Vec<u8>, then into "
+                "a sink implementing only byte(), a sink overriding all five methods, Checksum (+ u8sum), Sdt and PackageBuilder; all "
+                "observations must equal the vector's; distinct = distinct case text (each stands for 7 object x sink executions)",
+        "exhaustive": {"quick": False, "thorough": False},
+        "assumptions": COMMON_ASSUME + ["that objects use only the five AmlSink methods and have no interior mutability is a property of "
+                                        "the Rust source (type system), exercised but not proved"],
+        "level_text": "PARTIAL: theorems cover the sink side for all traces (a byte-only sink, the vector sink and the checksum sink observe "
+                      "only the flattened stream; u8sum = arithmetic sum); determinism and sink independence of the crate's objects "
+                      "are checked by running every generated object into six sinks.",
+    },
     "C15": {
         "rule": "cases = pairs (construction A, construction B): Scope::new vs Scope::raw with body sizes 0..4200 exhaustively "
                 "(thorough: 2^20 +- 16) and random child lists; Package vs PackageBuilder with 0..255 elements; &str vs String; "
